@@ -136,7 +136,7 @@ func init() {
 			return VerifyOpts{OnlyKinds: []string{"pre", "post", "frame", "inv-init", "inv-pres", "cover", "call"}, PathCovers: true}
 		},
 		Extra: func(e *Engine, tier string) []*FuncResult {
-			return []*FuncResult{e.mergeFlowResult(), e.siblingCopyResult(), e.ruleGlueResult(), e.composedConstructorResult(), e.yamlCarriedResult(map[string]bool{"AsRewriteRule": true, "AsSelector": true}, "c17")}
+			return []*FuncResult{e.mergeFlowResult(), e.siblingCopyResult(), e.ruleGlueResult(), e.composedConstructorResult(), e.mergedCopiesResult(), e.yamlCarriedResult(map[string]bool{"AsRewriteRule": true, "AsSelector": true}, "c17")}
 		},
 		Assumptions: []string{
 			"configuration: every field of the YAML description of a builder / option rule or selector is read by its AsRewriteRule / AsSelector method (structural obligation over go/ssa, one per field)",
